@@ -951,3 +951,10 @@ mod tests {
         assert_eq!(version.as_str(), Some("v1.1"));
     }
 }
+
+// Verification hook (guard: `cfg(kani)`, set only by `cargo kani`): harnesses kept outside the
+// repository are compiled as a child module so that they can reach private items.
+#[cfg(kani)]
+mod verif_kani {
+    include!(concat!(env!("RUMA_VERIF_DIR"), "/kani/ruma_common_api_metadata.rs"));
+}
